@@ -361,7 +361,19 @@ func (p *Program) pkgByName(name string, from *types.Package) *types.Package {
 			return pk.Types
 		}
 	}
-	return nil
+	// any package of the program (transitive imports), shortest path first: a contract may name a
+	// standard-library value such as io.EOF even when the package under contract does not import it
+	var best *types.Package
+	if p.ssa != nil {
+		for _, sp := range p.ssa.AllPackages() {
+			if sp.Pkg != nil && sp.Pkg.Name() == name {
+				if best == nil || len(sp.Pkg.Path()) < len(best.Path()) {
+					best = sp.Pkg
+				}
+			}
+		}
+	}
+	return best
 }
 
 // modulePath reads the module path from go.mod in dir.
